@@ -42,6 +42,16 @@ TEXTS = {
         "note": TB + "sqltimeout is covered under C18.",
         "technique": 'Lean 4 proof (gate functions over the engine model + laws of the store contract) + co-simulation and differential run of memtimeoutstore against the compiled reference',
     },
+    'C18': {
+        "text": "Kernel-checked: (1) SQLStore.Store modelled as a transaction on a working copy (begin; select; insert|update; event encoding; outbox insert; commit): for EVERY failure position the committed state is the state before and the call fails, "
+                "otherwise it is exactly RefStore.store (record row inserted/updated + exactly one outbox row) and succeeds; success iff nothing fails. (2) whereBuilder: for ANY sequence of Where/WhereNotNull/OrderBy/Limit/Offset calls with '?'-free field names, any values, "
+                "limits, offsets, the finalised text has exactly as many placeholders as bound parameters (invariant + induction over the call list); instantiated for every List call. (3) laws of RefStore/RefTimeouts (C17, C12 store clauses). "
+                "Ties: the real sqlstore/sqltimeout run over an in-process database/sql engine (harness/minisql): sql-atomic injects a failure at every driver operation of Store in turn over random pre-states (new run, existing run, unencodable record) and compares the committed "
+                "content, and checks the statement log for ONE transaction on the writer connection; sql-where compares the where text and parameter count of all 1536 List shapes with the Lean builder; sql-recordstore / sql-timeoutstore replay random operation sequences "
+                "(and the C17 corpus) against the compiled reference stores; every logged statement must bind as many arguments as it has placeholders and be understood by the engine.",
+        "note": TB + "Also trusted: harness/minisql (the reference SQL engine, ~900 lines of Go). A real MySQL server is not available in the sandbox and is not modelled (collations, datetime ties, isolation anomalies).",
+        "technique": "Lean 4 proof (transaction atomicity for all failure positions; placeholder balance of the where builder by induction; reference-store laws) + fault-enumeration and differential co-simulation of the SQL adapters over an in-process SQL engine",
+    },
     'C19': {
         "text": "Kernel-checked laws of the stream contract RefStream for every state: a delivery is the FIRST event of the receiver's topic at or after its start (order, nothing skipped); it does not block while such an event exists; an unacknowledged delivery is "
                 "delivered again (also to a reconnecting receiver); after ack(i) every later delivery - with or without StreamFromLatest - is beyond i; acks/receives under one name change neither position, floor nor log of another; a StreamFromLatest receiver with no "
@@ -102,7 +112,7 @@ TEXTS = {
 }
 
 NOT_APPLICABLE = {p: "check under construction in this session; will be claimed once its theorems and tie exist" for p in
-                  ["C01", "C11", "C18", "C20"]}
+                  ["C01", "C11", "C20"]}
 
 NOTES = ("One engine: Lean 4 model + theorems, regenerated facts (T1/T2), co-simulation (T3). ./check <id> quick|thorough; ./check replay <path>. "
          "known-findings.json lists genuine defects that are recorded rather than repaired.")
